@@ -53,7 +53,19 @@ def laws_traces():
 
 
 def rt_traces():
-    return None
+    """C25: .\\31 a (escaped digit kept) and a > b are faithful; in the corrupted trace the second print loses the combinator"""
+    cps = lambda s: [ord(c) for c in s]
+    T = lambda t, s="": {"t": t, "v": cps(s)}
+    ok = lambda toks: {"st": "ok", "toks": toks}
+    e1 = dict(id="name", src=cps(".\\31 a"), den=[{"t": "class", "v": [49, 97]}], p1=ok([T("class", "\\31 a")]), p2=ok([T("class", "\\31 a")]),
+              em=ok([T("class", "\\000031a")]), case=0, devs=[])
+    ab = [T("elem", "a"), T("comb", ">"), T("elem", "b")]
+    e2 = dict(id="chain", src=cps("a>b"), den=ab, p1=ok(ab), p2=ok(ab), em=ok(ab), case=1, devs=[])
+    e3 = dict(id="name", src=cps("#\\31 a"), den=[{"t": "id", "v": [49, 97]}], p1=ok([T("id", "\\31 a")]), p2=ok([T("id", "\\31 a")]),
+              em=ok([T("id", "\\31 a")]), case=2, devs=[])
+    good = [e1, e2, e3]
+    bad = [e1, dict(e2, p2=ok([T("elem", "a"), T("sp"), T("elem", "b")])), e3]
+    return good, bad, 2
 
 
 def run_one(module, cfg, work, name, evs):
